@@ -576,7 +576,12 @@ def r55(ctx: Ctx) -> RuleReport:
         rep.ok(key, fi.loc(loop), 'self.edges()')
         tv = loop.target.id if isinstance(loop.target, ast.Name) else None
         names3 = [norm(e) for e in loop.target.elts] if isinstance(loop.target, ast.Tuple) and len(loop.target.elts) == 3 else []
-        good = norm(_tgt(inc).slice) in (f'{tv}.target', f'{tv}[2]') or (names3 and norm(_tgt(inc).slice) == names3[2])
+        ksrc = norm(_tgt(inc).slice)
+        if isinstance(_tgt(inc).slice, ast.Name):
+            kd = [x for x in ctx.cg.local_assigns(fi).get(ksrc, []) if isinstance(x, ast.AST)]
+            if len(kd) == 1:
+                ksrc = norm(kd[0])              # target = edge.target
+        good = ksrc in (f'{tv}.target', f'{tv}[2]') or (names3 and ksrc == names3[2])
         rep.add('penman.graph:Graph.reentrancies: the target of the edge is counted', fi.loc(inc), 'ok' if good else 'undecided', norm(inc))
     elif it == 'self.triples':
         # a hand-written filter: it must be the edges predicate
@@ -1969,6 +1974,15 @@ def r84(ctx: Ctx) -> RuleReport:
                             if len(hloops) == 1 and any(isinstance(y, ast.Yield) for y in ast.walk(hloops[0])) \
                                     and not [y for y in ast.walk(hloops[0]) if isinstance(y, (ast.Break, ast.Return))]:
                                 scans.append(n)
+                # ... or a helper VALUE computed by a complete walk: m = helper(markers, ...) where the helper loops over its first argument to the end
+                for n in ast.walk(scope):
+                    if isinstance(n, ast.Call) and n.args and norm(n.args[0]) == mv and not isinstance(pm.get(id(n)), (ast.For, ast.comprehension)):
+                        hs = [t.func for t in ctx.cg.resolve_call(n, fi) if t.kind == 'func']
+                        if len(hs) == 1 and hs[0].positional:
+                            hp = hs[0].positional[0]
+                            hloops = [x for x in walk_local(hs[0].node) if isinstance(x, ast.For) and norm(x.iter) == hp]
+                            if len(hloops) == 1 and not [y for y in ast.walk(hloops[0]) if isinstance(y, (ast.Break, ast.Return))]:
+                                scans.append(hloops[0])
                 early = [b for sc in scans if isinstance(sc, ast.For) for b in ast.walk(sc) if isinstance(b, ast.Break)]
                 if fixed and not scans:
                     rep.violation(key, fi.loc(fixed[0]), f'only `{norm(fixed[0])}` is looked at: the marker list of a triple has no fixed layout (a branch such as '
